@@ -532,7 +532,12 @@ func (r *Run) runBatch(k int, lo, hi int, opts ExecOpts, gen func(i int) *Item) 
 			bin = r.RaceBin
 		}
 		cmd := exec.Command(bin, casePath, outPath)
-		cmd.Env = append(append(os.Environ(), opts.Env...), "VW_REPO_PREFIX="+RepoRoot+"/")
+		// the worker's temporary files live inside the run's work directory: what a worker that is killed leaves behind
+		// goes away with it
+		tmpd := filepath.Join(r.WorkDir, "tmp")
+		os.MkdirAll(tmpd, 0o777)
+		os.Chmod(tmpd, 0o777|os.ModeSticky)
+		cmd.Env = append(append(append(os.Environ(), "TMPDIR="+tmpd), opts.Env...), "VW_REPO_PREFIX="+RepoRoot+"/")
 		ef, _ := os.Create(errPath)
 		sf, _ := os.Create(stdoutPath)
 		var ptyMaster *os.File
